@@ -964,6 +964,27 @@ pub fn panic_sig(m: &str) -> String {
     };
     let file = loc.rsplit_once(':').map(|(f, _)| f).unwrap_or(loc);
     let file = file.rsplit('/').next().unwrap_or(file);
+    // drop quoted fragments (they carry input-dependent text) and non-ASCII
+    let mut cleaned = String::new();
+    let mut quote: Option<char> = None;
+    for c in msg.chars() {
+        match quote {
+            Some(q) => {
+                if c == q {
+                    quote = None;
+                }
+            }
+            None => {
+                if c == '\'' || c == '`' || c == '"' {
+                    quote = Some(c);
+                    cleaned.push('_');
+                } else if c.is_ascii() {
+                    cleaned.push(c);
+                }
+            }
+        }
+    }
+    let msg = cleaned.as_str();
     let mut s = String::new();
     let mut last_digit = false;
     for c in msg.chars().take(60) {
